@@ -12,9 +12,9 @@ if [ ! -d $WT ]; then git -C /repo worktree add --detach $WT HEAD -q; fi
 cd $WT && git checkout -q --detach $(git -C /repo rev-parse HEAD) && git checkout -- . && git clean -fdq
 git apply --whitespace=nowarn $D/demo.diff || { echo "demo.diff does not apply"; exit 2; }
 touch crates/$CRATE/src/lib.rs
-echo "== demo WITHOUT patch"; cargo nextest run $CFG -p $CRATE --lib --offline --no-fail-fast -E "test(/$FILTER/)" 2>&1 | grep -E "PASS|FAIL|Summary|error" | tail -8
+echo "== demo WITHOUT patch"; cargo nextest run $CFG -p $CRATE --lib --offline --no-fail-fast --retries 0 -E "test(/$FILTER/)" 2>&1 | grep -E "PASS|FAIL|Summary|error" | tail -8
 git apply --whitespace=nowarn $D/patch.diff || { echo "patch.diff does not apply"; exit 2; }
 touch crates/$CRATE/src/lib.rs
-echo "== demo WITH patch"; cargo nextest run $CFG -p $CRATE --lib --offline --no-fail-fast -E "test(/$FILTER/)" 2>&1 | grep -E "PASS|FAIL|Summary|error" | tail -8
-echo "== existing suite WITH patch (demo excluded)"; cargo nextest run $CFG -p $CRATE --offline --no-fail-fast -E "not test(/$FILTER/)" 2>&1 | grep -E "^\s+FAIL|Summary|error\[" | sort | uniq | tail -12
+echo "== demo WITH patch"; cargo nextest run $CFG -p $CRATE --lib --offline --no-fail-fast --retries 0 -E "test(/$FILTER/)" 2>&1 | grep -E "PASS|FAIL|Summary|error" | tail -8
+echo "== existing suite WITH patch (demo excluded)"; cargo nextest run $CFG -p $CRATE --offline --no-fail-fast --retries 0 -E "not test(/$FILTER/)" 2>&1 | grep -E "^\s+FAIL|Summary|error\[" | sort | uniq | tail -12
 git checkout -- . && git clean -fdq
